@@ -59,6 +59,9 @@ func init() {
 	m["path/filepath.Abs"] = libAbs
 	m["path/filepath.Clean"] = libClean
 	m["strings.ReplaceAll"] = libReplaceAll
+	m["compress/zlib.NewWriter"] = libZlibNewWriter
+	m["(*compress/zlib.Writer).Write"] = libZlibWrite
+	m["(*compress/zlib.Writer).Close"] = libZlibClose
 	m["path/filepath.ToSlash"] = libToSlash
 	m["(*github.com/spf13/cobra.Command).Flags"] = libNonNil
 	for k, v := range m {
@@ -685,4 +688,44 @@ func libDir(g *FuncGen, c *ast.CallExpr, callee *types.Func, st *State) []Val {
 func libToSlash(g *FuncGen, c *ast.CallExpr, callee *types.Func, st *State) []Val {
 	g.libNote("filepath.ToSlash: identity (GOOS=linux)")
 	return []Val{g.ev(c.Args[0], st)}
+}
+
+// ---------- zlib.Writer over a bytes.Buffer (assumed: the buffer is fresh and receives nothing but this stream) ----------
+
+// zlib.NewWriter(&b): a writer that has taken nothing yet and will deliver into b
+func libZlibNewWriter(g *FuncGen, c *ast.CallExpr, callee *types.Func, st *State) []Val {
+	target := g.ev(c.Args[0], st)
+	w := g.allocOpaque(st, callee.Type().(*types.Signature).Results().At(0).Type())
+	g.declFun("zwTarget", []string{"Int"}, "Int")
+	g.assume(st, fmt.Sprintf("(= (zwTarget %s) %s)", w.T, target.T))
+	zw := g.ghostGet(st, "$zw")
+	g.ghostSet(st, "$zw", fmt.Sprintf("(store %s %s bempty)", zw, w.T))
+	return []Val{w}
+}
+
+// w.Write(p): on success the writer has taken p as well
+func libZlibWrite(g *FuncGen, c *ast.CallExpr, callee *types.Func, st *State) []Val {
+	w := recvOf(g, c, st)
+	src := g.exprText(c.Fun)
+	g.oblige(st, "nil", src, nil, fmt.Sprintf("(not (= %s 0))", w.T), c.Pos(), src)
+	data := coerce(g.ev(c.Args[0], st), types.NewSlice(types.Typ[types.Uint8]))
+	res := g.libResults(callee, st)
+	zw := g.ghostGet(st, "$zw")
+	g.ghostSet(st, "$zw", fmt.Sprintf("(ite (= %s 0) (store %s %s (bcat (select %s %s) %s)) %s)", res[1].T, zw, w.T, zw, w.T, data.T, zw))
+	g.assume(st, fmt.Sprintf("(=> (= %s 0) (= %s (blen %s)))", res[1].T, res[0].T, data.T))
+	return res
+}
+
+// w.Close(): the target buffer now holds the zlib stream of everything written
+func libZlibClose(g *FuncGen, c *ast.CallExpr, callee *types.Func, st *State) []Val {
+	w := recvOf(g, c, st)
+	src := g.exprText(c.Fun)
+	g.oblige(st, "nil", src, nil, fmt.Sprintf("(not (= %s 0))", w.T), c.Pos(), src)
+	res := g.libResults(callee, st)
+	g.declFun("zwTarget", []string{"Int"}, "Int")
+	zw := g.ghostGet(st, "$zw")
+	// the target is a bytes.Buffer, whose Write never returns an error: neither does Close
+	g.assume(st, fmt.Sprintf("(= %s 0)", res[0].T))
+	g.assume(st, fmt.Sprintf("(= (bufBytes (zwTarget %s)) (zlibEnc (select %s %s)))", w.T, zw, w.T))
+	return res
 }
